@@ -50,6 +50,9 @@ func (propC17) Draw(rt *rapid.T, w *WorldDesc, mode string) *Plan {
 	case "isolation":
 		nOps := rapid.IntRange(2, 8).Draw(rt, "nOps")
 		p.Sequential = rapid.IntRange(0, 5).Draw(rt, "sequential") == 0
+		// message instances shared between calls: handlers that return a cached response,
+		// callers that pass one request to several calls
+		p.SharedMsgs = rapid.Bool().Draw(rt, "sharedMsgs")
 		for i := 0; i < nOps; i++ {
 			md := methods[rapid.IntRange(0, len(methods)-1).Draw(rt, fmt.Sprintf("op%d.rpc", i))]
 			rpc := w.RPC(md.Key)
@@ -87,6 +90,18 @@ func (propC17) Draw(rt *rapid.T, w *WorldDesc, mode string) *Plan {
 				resp := NewFilled(rt, md.NewResp, fmt.Sprintf("op%d.resp", i), nil)
 				op.RespBin = mustMarshal(resp)
 				op.App = AppBehaviour{Kind: "respond"}
+			}
+			if p.SharedMsgs && rapid.Bool().Draw(rt, fmt.Sprintf("op%d.sameAsEarlier", i)) {
+				// same payloads as an earlier call of this RPC: the two calls share the instances
+				for _, prev := range p.Ops {
+					if prev.RPC == op.RPC {
+						op.ReqBin, op.ReqJSON = prev.ReqBin, prev.ReqJSON
+						if op.App.Kind == "respond" && prev.App.Kind == "respond" {
+							op.RespBin = prev.RespBin
+						}
+						break
+					}
+				}
 			}
 			op.ReqChunks = drawChunks(rt, fmt.Sprintf("op%d.reqChunks", i))
 			op.RespChunks = drawChunks(rt, fmt.Sprintf("op%d.respChunks", i))
